@@ -309,8 +309,10 @@ let key_of_logs (logs : (int * int * string) list) : string =
 
 let rleak_str = function RLArc -> "arc" | RLAlloc -> "alloc" | RLMsgs -> "msgs"
 
-let ref_keys ?(regions = false) (weak : bool) (p : prog) : string list =
-  let outs = if regions then ref_outcomes_regions big_fuel p else ref_outcomes weak big_fuel p in
+let ref_keys ?(regions = false) ?(bounded = false) (weak : bool) (p : prog) : string list =
+  let outs = if regions then ref_outcomes_regions big_fuel p
+             else if bounded then ref_outcomes_bounded big_fuel p
+             else ref_outcomes weak big_fuel p in
   let tbl = Hashtbl.create 64 in
   List.iter
     (fun o ->
@@ -404,6 +406,7 @@ let keys_file which file =
          (match which with
          | `Ref w -> List.iter (fun k -> Printf.printf "K %s\n" k) (ref_keys w p)
          | `RefA -> List.iter (fun k -> Printf.printf "K %s\n" k) (ref_keys ~regions:true false p)
+         | `RefB -> List.iter (fun k -> Printf.printf "K %s\n" k) (ref_keys ~bounded:true false p)
          | `Rc11 st -> List.iter (fun k -> Printf.printf "K %s\n" k) (rc11_keys st p)
          | `Model ->
              let ks, fin = model_keys p in
@@ -649,6 +652,7 @@ let () =
   | [ _; "ref"; f ] -> keys_file (`Ref false) f
   | [ _; "refw"; f ] -> keys_file (`Ref true) f
   | [ _; "refa"; f ] -> keys_file (`RefA) f
+  | [ _; "refb"; f ] -> keys_file (`RefB) f
   | [ _; "rc11s"; f ] -> keys_file (`Rc11 true) f
   | [ _; "rc11w"; f ] -> keys_file (`Rc11 false) f
   | [ _; "keys"; f ] -> keys_file `Model f
